@@ -50,7 +50,7 @@ Definition check (f1 f2 : bool) (c : case) : verdict :=
      v_guards := guards [(1%Z, guard_F1 (c_cred c) && negb f1);
                          (2%Z, guard_F2 (c_cred c) && negb f2);
                          (3%Z, guard_F3 (c_cred c) && f1);
-                         (5%Z, guard_F5 (c_cf c) (c_cred c))] |}.
+                         (5%Z, false)] |}.
 
 (* short constructors for the generated case files *)
 Definition ex i s a g l := {| e_issuers := i; e_scopes := s; e_aud := a; e_algs := g; e_leeway := l |}.
@@ -97,9 +97,9 @@ Definition check_hist (f1 f2 f4 : bool) (c : hcase) : verdict :=
                          (2%Z, existsb (fun s => guard_F2 (s_cred s)) steps && negb f2);
                          (3%Z, existsb (fun s => guard_F3 (s_cred s)) steps && f1);
                          (4%Z, guard_F4 f1 f2 steps && negb f4);
-                         (5%Z, existsb (fun s => guard_F5 (s_cf s) (s_cred s)) steps)] |}.
+                         (5%Z, false)] |}.
 
-Definition hs cf con tpl env now cred o attrs :=
-  {| h_step := {| s_cf := cf; s_cache_on := con; s_templated := tpl; s_env := env; s_now := secs now; s_cred := cred |};
+Definition hs cf con ttl tpl env now cred o attrs :=
+  {| h_step := {| s_cf := cf; s_cache_on := con; s_ttl := ttl; s_templated := tpl; s_env := env; s_now := secs now; s_cred := cred |};
      h_obs := o; h_attrs := attrs |}.
 Definition hc steps := {| hc_steps := steps |}.
